@@ -50,7 +50,7 @@ def check_case(stats, case):
 
 def run_shard(k, seed, tier):
     stats = Stats()
-    n = 220 if tier == 'quick' else 3000
+    n = 600 if tier == 'quick' else 8000
     size = dict(main_stmts=12, funcs=5)
     strat = programs(features=FEATURES, size=size)
 
